@@ -10,7 +10,6 @@
 package vrt
 
 import (
-	"bytes"
 	"fmt"
 	"os"
 	"runtime"
@@ -61,6 +60,7 @@ type pend struct {
 type thread struct {
 	id      int
 	gid     int64
+	g       uintptr
 	wake    chan struct{}
 	exited  chan struct{}
 	pend    *pend
@@ -134,28 +134,23 @@ type sched struct {
 
 var s = &sched{}
 
-// gid returns the current goroutine id.
-func gid() int64 {
-	var buf [40]byte
-	n := runtime.Stack(buf[:], false)
-	// "goroutine 123 ["
-	b := buf[10:n]
-	i := bytes.IndexByte(b, ' ')
-	if i < 0 {
-		return -1
-	}
-	id, _ := strconv.ParseInt(string(b[:i]), 10, 64)
-	return id
-}
+// getg returns the address of the calling goroutine's runtime g (assembly); it is a
+// unique identity for as long as the goroutine lives.
+func getg() uintptr
+
+func gid() int64 { return int64(getg()) }
 
 // me returns the managed thread of the calling goroutine or nil.
 func me() *thread {
 	if !s.active.Load() {
 		return nil
 	}
-	if v, ok := s.byGid.Load(gid()); ok {
-		t := v.(*thread)
-		return t
+	g := getg()
+	if c := s.cur; c != nil && c.g == g {
+		return c
+	}
+	if v, ok := s.byGid.Load(int64(g)); ok {
+		return v.(*thread)
 	}
 	return nil
 }
@@ -166,7 +161,7 @@ func callerSite(skip int) string {
 	fr := runtime.CallersFrames(pcs[:n])
 	for {
 		f, more := fr.Next()
-		if !strings.Contains(f.Function, "/internal/vrt.") && !strings.HasPrefix(f.Function, "vrt.") && f.Function != "" {
+		if !strings.HasPrefix(f.Function, "github.com/gotid/god.") && !strings.Contains(f.Function, "/vrt.") && !strings.HasPrefix(f.Function, "vrt.") && f.Function != "" {
 			fn := f.Function
 			if i := strings.LastIndex(fn, "/"); i >= 0 {
 				fn = fn[i+1:]
@@ -197,6 +192,7 @@ func (s *sched) spawn(fn func(), site string, parent int) *thread {
 	reg := make(chan struct{})
 	go func() {
 		t.gid = gid()
+		t.g = uintptr(t.gid)
 		s.byGid.Store(t.gid, t)
 		close(reg)
 		defer s.threadExit(t)
@@ -616,6 +612,7 @@ func (s *sched) runOnce(r *Run, body func(*Run), prefix []int) execResult {
 		}()
 	}
 	// teardown: release every parked thread with Goexit, one at a time
+	s.cur = nil
 	s.teardown = true
 	s.active.Store(true)
 	for i := 0; i < len(s.threads); i++ { // threads may spawn during teardown? no: Go() refuses
